@@ -21,6 +21,7 @@ type HOp struct {
 	Call   int64
 	Ret    int64
 	Multi  string // "putmany"/"getmany" if the event is one leg of a multi-key call
+	Waiter int    // wait / cancel: waiter id (bit in the cancelled set)
 	done   bool
 }
 
@@ -65,8 +66,9 @@ func (h *History) Tick() int64 { h.tick++; return h.tick }
 func (h *History) AddComplete(o HOp) { o.done = true; h.Ops = append(h.Ops, o) }
 
 type kstate struct {
-	present bool
-	w       int // id of the write that produced the current record (-1 none)
+	present   bool
+	w         int   // id of the write that produced the current record (-1 none)
+	cancelled uint8 // waiters whose context has been cancelled
 }
 
 // Check judges the history: documented outcomes only, version <-> write
@@ -84,6 +86,7 @@ func (h *History) Check() (sig, detail string) {
 		okErr := map[string][]string{
 			"create": {"nil", "ErrExist"}, "get": {"nil", "ErrNotExist"}, "put": {"nil"},
 			"cas": {"nil", "ErrConflict", "ErrNotExist"}, "delete": {"nil", "ErrNotExist"},
+			"wait": {"nil", "ErrNotExist", "Canceled"}, "cancel": {"nil"},
 		}[o.Kind]
 		found := false
 		for _, e := range okErr {
@@ -139,7 +142,7 @@ func (h *History) Check() (sig, detail string) {
 		byKey[o.Key] = append(byKey[o.Key], porcupine.Operation{ClientId: o.Thread, Input: i, Call: o.Call, Output: i, Return: o.Ret})
 	}
 	model := porcupine.Model{
-		Init: func() interface{} { return kstate{false, -1} },
+		Init: func() interface{} { return kstate{false, -1, 0} },
 		Step: func(state, input, output interface{}) (bool, interface{}) {
 			s := state.(kstate)
 			i := input.(int)
@@ -147,7 +150,7 @@ func (h *History) Check() (sig, detail string) {
 			switch o.Kind {
 			case "create":
 				if o.Err == "nil" {
-					return !s.present, kstate{true, i}
+					return !s.present, kstate{true, i, s.cancelled}
 				}
 				if !s.present {
 					return false, s
@@ -162,12 +165,12 @@ func (h *History) Check() (sig, detail string) {
 				}
 				return s.present && writeOfVal[o.OutVal] == s.w, s
 			case "put":
-				return true, kstate{true, i}
+				return true, kstate{true, i, s.cancelled}
 			case "cas":
 				w, known := writeOfVer[o.ExpVer]
 				switch o.Err {
 				case "nil":
-					return s.present && known && w == s.w, kstate{true, i}
+					return s.present && known && w == s.w, kstate{true, i, s.cancelled}
 				case "ErrConflict":
 					if !s.present {
 						return false, s
@@ -180,9 +183,23 @@ func (h *History) Check() (sig, detail string) {
 				default: // ErrNotExist
 					return !s.present, s
 				}
+			case "cancel":
+				s.cancelled |= 1 << uint(o.Waiter)
+				return true, s
+			case "wait":
+				switch o.Err {
+				case "nil":
+					// the key exists with a version different from the given one
+					w, known := writeOfVer[o.ExpVer]
+					return s.present && !(known && w == s.w), s
+				case "ErrNotExist":
+					return !s.present, s
+				default:
+					return s.cancelled&(1<<uint(o.Waiter)) != 0, s
+				}
 			case "delete":
 				if o.Err == "nil" {
-					return s.present, kstate{false, -1}
+					return s.present, kstate{false, -1, s.cancelled}
 				}
 				return !s.present, s
 			}
